@@ -7,7 +7,7 @@ use core::{
 use arbitrary::Arbitrary;
 use base64::Engine;
 use serde::{
-    de::{Deserialize, Deserializer, MapAccess, Visitor},
+    de::{Deserialize, Deserializer, IgnoredAny, MapAccess, Visitor},
     ser::{Serialize, SerializeMap, Serializer},
 };
 
@@ -176,7 +176,10 @@ impl<'de> Visitor<'de> for JwkMapVisitor<'de> {
                     }
                 }
                 "key_ops" => key_ops = Some(access.next_value()?),
-                _ => (),
+                _ => {
+                    // skip the value of an unrecognized member
+                    access.next_value::<IgnoredAny>()?;
+                }
             }
         }
 
